@@ -19,6 +19,7 @@ from .C03 import _canon
 from .C20 import interleavings, same_result_cross, strip_ids
 
 ROOT = os.path.dirname(os.path.dirname(os.path.dirname(os.path.abspath(__file__))))
+from ..rundir import GEN as _GEN  # noqa: E402
 EXTRA_PROOF_FILES = ["generated/Facts_effects.v"]
 ASSUMPTIONS = [
     "G2: the effect summary (python ast) over-approximates stores to shared / caller-owned state; the four singleton __new__ stores are reviewed as write-once",
@@ -29,7 +30,7 @@ TRUSTED_EXTRA = ["fact translator harness/facts/effects.py (python ast) regenera
 
 def regenerate_facts():
     try:
-        d = effects.emit(os.environ.get("KV_REPO", "/repo"), os.path.join(ROOT, "coq", "generated", "Facts_effects.v"))
+        d = effects.emit(os.environ.get("KV_REPO", "/repo"), os.path.join(_GEN, "Facts_effects.v"))
         if d["bad"]:
             return True, "stores to shared or caller-owned state on the validation path: " + "; ".join(effects.key(w) for w in d["bad"][:4])
         return True, ""
@@ -100,7 +101,8 @@ def check_history(vt, lazy, ops) -> Optional[dict]:
         if not same(ctx, r, actx, alone):
             return {"signature": "C13:history-dependent",
                     "what": f"call {i} ({mode}, {x!r}) returned {r!r} after {i} earlier calls; a fresh instance returns {alone!r}"}
-    if snapshot_validator(v) != cfg0 or repr(v) != rep0:
+    # (a cache wrapper's store is state by design - its transparency is C20's subject)
+    if not G.contains(vt, "CacheV") and (snapshot_validator(v) != cfg0 or repr(v) != rep0):
         return {"signature": "C13:validator-modified", "what": "the validator's attributes changed during validation"}
     return None
 
@@ -224,6 +226,20 @@ def run(tier: str, rng: random.Random, proof_ok: bool) -> dict:
         (("ClassV", ("RkData",), N(G.C_DATA), [P(G.S("a"), P(STRIP, True)), P(G.S("b"), P(INT, False))], None, None, False, None),
          [("VDict", [P(G.S("a"), G.S(" x "))]), ("VDict", [P(G.S("a"), G.S(" y ")), P(G.S("b"), G.I(3))]), ("VDict", [])]),
         (("SetV", STRIP, [], [], None), [("VSet", [G.S(" a"), G.S("a ")]), ("VSet", [G.S("b")])]),
+        # mappings that are not plain dicts (a read of an absent key may fabricate and *store* a value: look, do not touch)
+        (("RecordV", [P(G.S("a"), INT), P(G.S("b"), ("KeyNotRequired", INT))], N(2), None, None, False),
+         [("VSub", N(G.C_DICT), ("VDict", [P(G.S("a"), G.I(1))])), ("VSub", N(G.C_DICT), ("VDict", [])),
+          ("VSub", N(G.C_DICT), ("VDict", [P(G.S("b"), G.I(2))]))]),
+        (("RecordV", [P(G.S("a"), INT)], N(0), None, None, True),
+         [("VSub", N(G.C_DICT), ("VDict", [P(G.S("z"), G.I(1))])), ("VSub", N(G.C_DICT), ("VDict", []))]),
+        (("ListV", ("IsDictV",), [], [], None), [("VList", [("VSub", N(G.C_DICT), ("VDict", []))])]),
+        # a child that hands out one result object for equal inputs (a cache) under wrappers that re-wrap its payload
+        (("DictAnyV", [P(G.S("a"), ("KeyNotRequired", ("CacheV", INT))), P(G.S("b"), ("CacheV", INT))], None, None, False),
+         [("VDict", [P(G.S("a"), G.I(1)), P(G.S("b"), G.I(1))]), ("VDict", [P(G.S("a"), G.I(1))]), ("VDict", [P(G.S("b"), G.I(2))])]),
+        (("RecordV", [P(G.S("a"), ("KeyNotRequired", ("CacheV", STRIP)))], N(2), None, None, False),
+         [("VDict", [P(G.S("a"), G.S(" x "))]), ("VDict", [])]),
+        (("MaybeV", ("CacheV", INT)), [("VJust", G.I(1)), ("VJust", G.S("s")), G.NOTHING]),
+        (("ListV", ("OptionalV", ("NoneV", None), ("CacheV", STRIP)), [], [], None), [("VList", [G.S(" a "), G.NONE, G.S(" a ")])]),
     ]
     # (a) histories on one shared instance
     import itertools
